@@ -54,6 +54,7 @@ pub struct Case {
     pub nodes: Option<u64>,
     pub stop: u64,
     pub cache: &'static str, // fresh | keep | off
+    pub tag: String,
 }
 
 pub fn setup_board(fen: &str, moves: &[String]) -> Option<Board> {
@@ -67,13 +68,14 @@ pub fn setup_board(fen: &str, moves: &[String]) -> Option<Board> {
 
 pub fn run_case(c: &Case) {
     println!(
-        "S fen=[{}] moves=[{}] depth={} nodes={} stop={} cache={}",
+        "S fen=[{}] moves=[{}] depth={} nodes={} stop={} cache={}{}",
         c.fen,
         c.moves.join(" "),
         c.depth,
         c.nodes.map_or("-".to_string(), |n| n.to_string()),
         c.stop,
-        c.cache
+        c.cache,
+        if c.tag.is_empty() { String::new() } else { format!(" {}", c.tag) }
     );
     let Some(board) = setup_board(&c.fen, &c.moves) else {
         println!("X bad-case");
@@ -208,6 +210,7 @@ pub fn search_stream(args: &[String]) {
                     nodes: f[3].parse().ok(),
                     stop: f[4].parse().unwrap_or(0),
                     cache,
+                    tag: f.get(6).map(|x| x.to_string()).unwrap_or_default(),
                 });
             }
         }
@@ -219,7 +222,7 @@ pub fn search_stream(args: &[String]) {
                 let d = 1 + (rng.below(u64::from(maxdepth))) as u8;
                 for depth in [d, maxdepth] {
                     for _ in 0..repeat {
-                        run_case(&Case { fen: fen.clone(), moves: moves.clone(), depth, nodes: None, stop: 0, cache: if mode == "off" { "off" } else { "fresh" } });
+                        run_case(&Case { fen: fen.clone(), moves: moves.clone(), depth, nodes: None, stop: 0, cache: if mode == "off" { "off" } else { "fresh" }, tag: String::new() });
                     }
                 }
             }
@@ -249,7 +252,7 @@ pub fn search_stream(args: &[String]) {
                 let mut k = 1 + off;
                 while k <= total + 1 {
                     let (nodes, stop) = if mode == "budget" { (Some(k), 0) } else { (None, k) };
-                    run_case(&Case { fen: fen.clone(), moves: moves.clone(), depth: maxdepth, nodes, stop, cache: "fresh" });
+                    run_case(&Case { fen: fen.clone(), moves: moves.clone(), depth: maxdepth, nodes, stop, cache: "fresh", tag: String::new() });
                     k += step;
                 }
             }
@@ -267,12 +270,192 @@ pub fn search_stream(args: &[String]) {
                 }
                 let mut first = true;
                 for d in depths {
-                    run_case(&Case { fen: fen.clone(), moves: moves.clone(), depth: d, nodes: None, stop: 0, cache: if first { "fresh" } else { "keep" } });
+                    run_case(&Case { fen: fen.clone(), moves: moves.clone(), depth: d, nodes: None, stop: 0, cache: if first { "fresh" } else { "keep" }, tag: String::new() });
                     first = false;
                 }
             }
         }
+        "mate" => mate_mode(&mut rng, count, maxdepth, shard, of),
         _ => {}
     }
     println!("END");
+}
+
+// ---------------------------------------------------------------------------------------------
+// `--mode mate`: positions with a mate in one, a forced mate in two, or an avoidable mate-in-one threat,
+// mined by brute force with the engine's own move generator (the driver re-verifies each witness on the rules spec)
+
+fn mates_in_one(b: &mut Board) -> Vec<Ply> {
+    let mut out = vec![];
+    for m in b.get_legal_moves() {
+        b.make_move(m);
+        let mated = b.get_legal_moves().is_empty() && b.is_in_check(b.current_turn);
+        b.unmake_move();
+        if mated {
+            out.push(m);
+        }
+    }
+    out
+}
+
+/// a move after which every reply allows a mate in one (and there is at least one reply)
+fn forced_mate_in_two(b: &mut Board) -> Option<Ply> {
+    for m in b.get_legal_moves() {
+        b.make_move(m);
+        let replies = b.get_legal_moves();
+        let mut all = !replies.is_empty();
+        for r in replies {
+            b.make_move(r);
+            let ok = !mates_in_one(b).is_empty();
+            b.unmake_move();
+            if !ok {
+                all = false;
+                break;
+            }
+        }
+        b.unmake_move();
+        if all {
+            return Some(m);
+        }
+    }
+    None
+}
+
+/// (a move that allows the opponent a mate in one, a move that does not)
+fn avoidable_threat(b: &mut Board) -> Option<(Ply, Ply)> {
+    let mut bad = None;
+    let mut good = None;
+    for m in b.get_legal_moves() {
+        b.make_move(m);
+        let threat = !mates_in_one(b).is_empty();
+        b.unmake_move();
+        if threat {
+            bad.get_or_insert(m);
+        } else {
+            good.get_or_insert(m);
+        }
+    }
+    match (bad, good) {
+        (Some(x), Some(y)) => Some((x, y)),
+        _ => None,
+    }
+}
+
+fn random_sparse(rng: &mut Rng) -> Option<Board> {
+    // kings plus 2..5 random pieces; pawns not on the back ranks; side not to move not in check
+    let mut sq: Vec<u8> = (0..64).collect();
+    for i in (1..64).rev() {
+        let j = rng.below(i as u64 + 1) as usize;
+        sq.swap(i, j);
+    }
+    let mut grid = [None::<(char)>; 64];
+    grid[sq[0] as usize] = Some('K');
+    grid[sq[1] as usize] = Some('k');
+    let n = 2 + rng.below(4) as usize;
+    let pcs = ['Q', 'R', 'R', 'B', 'N', 'P', 'q', 'r', 'r', 'b', 'n', 'p', 'Q', 'R'];
+    for i in 0..n {
+        let c = pcs[rng.below(pcs.len() as u64) as usize];
+        let s = sq[2 + i] as usize;
+        if (c == 'P' || c == 'p') && (s / 8 == 0 || s / 8 == 7) {
+            continue;
+        }
+        grid[s] = Some(c);
+    }
+    let mut fen = String::new();
+    for rank in (0..8).rev() {
+        let mut e = 0;
+        for file in 0..8 {
+            match grid[rank * 8 + file] {
+                None => e += 1,
+                Some(c) => {
+                    if e > 0 {
+                        fen.push_str(&e.to_string());
+                        e = 0;
+                    }
+                    fen.push(c);
+                }
+            }
+        }
+        if e > 0 {
+            fen.push_str(&e.to_string());
+        }
+        if rank > 0 {
+            fen.push('/');
+        }
+    }
+    let turn = if rng.below(2) == 0 { "w" } else { "b" };
+    let fen = format!("{fen} {turn} - - 0 1");
+    let b = Board::from_fen(&fen);
+    // kings not adjacent and the side that is not to move not in check
+    let other = b.current_turn.opposite();
+    if b.is_in_check(other) {
+        return None;
+    }
+    Some(b)
+}
+
+fn mate_mode(rng: &mut Rng, count: usize, maxdepth: u8, shard: usize, of: usize) {
+    let mut found = 0usize;
+    let mut tries = 0u64;
+    let mut per_cat = [0usize; 3];
+    while found < count && tries < 2_000_000 {
+        tries += 1;
+        // half from sparse random positions, half from random play out of the seeds
+        let mut b = if rng.below(2) == 0 {
+            match random_sparse(rng) {
+                Some(b) => b,
+                None => continue,
+            }
+        } else {
+            let fen = super::walk::SEEDS[rng.below(super::walk::SEEDS.len() as u64) as usize];
+            let mut b = Board::from_fen(fen);
+            for _ in 0..(4 + rng.below(50)) {
+                let legal = b.get_legal_moves();
+                if legal.is_empty() {
+                    break;
+                }
+                let m = legal[rng.below(legal.len() as u64) as usize];
+                b.make_move(m);
+            }
+            Board::from_fen(&render_fen(&b)) // no history, as the property says
+        };
+        if b.get_legal_moves().is_empty() || b.get_halfmove_clock() > 60 {
+            continue;
+        }
+        let m1 = mates_in_one(&mut b);
+        let (cat, tag) = if !m1.is_empty() {
+            (0, format!("tag=m1 wit={}", m1[0].to_notation()))
+        } else if let Some(w) = forced_mate_in_two(&mut b) {
+            (1, format!("tag=m2 wit={}", w.to_notation()))
+        } else if let Some((_bad, good)) = avoidable_threat(&mut b) {
+            (2, format!("tag=av wit={}", good.to_notation()))
+        } else {
+            continue;
+        };
+        // keep the three categories balanced
+        if per_cat[cat] > found / 3 + 2 {
+            continue;
+        }
+        per_cat[cat] += 1;
+        found += 1;
+        // consume the generator identically in every shard
+        let mut depths: Vec<u8> = (1..=maxdepth.max(3)).collect();
+        for i in (1..depths.len()).rev() {
+            let j = rng.below(i as u64 + 1) as usize;
+            depths.swap(i, j);
+        }
+        if (found - 1) % of != shard {
+            continue;
+        }
+        let fen = render_fen(&b);
+        // fresh at 3 and at the maximum depth, then after earlier searches at the other depths in a random order
+        for d in [3u8, maxdepth.max(3)] {
+            run_case(&Case { fen: fen.clone(), moves: vec![], depth: d, nodes: None, stop: 0, cache: "fresh", tag: tag.clone() });
+        }
+        let mut first = true;
+        for d in depths {
+            run_case(&Case { fen: fen.clone(), moves: vec![], depth: d, nodes: None, stop: 0, cache: if first { "fresh" } else { "keep" }, tag: tag.clone() });
+            first = false;
+        }
+    }
 }
